@@ -412,8 +412,10 @@ def s_predicate(F, res, label=""):
         if not m:
             continue
         f = F.fns[p]
+        # with the selection helpers of the crate (`take_if_useful`, `trim_excess`, ..) inlined
+        fi = mir.inline_calls(F, f, want=c04._HELPERS_ALL, depth=2)
         names = set()
-        for g in with_closures(F, f):
+        for g in [fi] + with_closures(F, f)[1:]:
             for bi, t in mir.calls(g):
                 c = t.get("callee") or ""
                 if c.startswith("tx3_tir::model::assets::CanonicalAssets::"):
